@@ -14,6 +14,27 @@ from .predict import predict
 from .marginalize import marginalize
 
 
+def _validate_variants(variants, X, name, characters=True):
+	"""Raise if a variant names an example, position or character that is absent.
+
+	Negative indexes are rejected as well because they would otherwise silently
+	wrap around and edit a different example, position or character.
+	"""
+
+	if len(variants) == 0:
+		return
+
+	limits = [("example", X.shape[0]), ("position", X.shape[-1])]
+	if characters:
+		limits.append(("character", X.shape[1]))
+
+	for i, (kind, limit) in enumerate(limits):
+		column = torch.as_tensor(variants)[:, i]
+		if (column < 0).any() or (column >= limit).any():
+			raise ValueError("{} contains a {} index outside [0, {})".format(
+				name, kind, limit))
+
+
 def substitution_effect(model, X, substitutions, args=None, func=predict, 
 	additional_func_kwargs=None, **kwargs):
 	"""Apply a function before and after including one or more substitutions.
@@ -92,6 +113,7 @@ def substitution_effect(model, X, substitutions, args=None, func=predict,
 	"""
 
 	additional_func_kwargs = additional_func_kwargs or {}
+	_validate_variants(substitutions, X, "substitutions")
 
 	X_var = torch.clone(X)
 	X_var[substitutions[:, 0], :, substitutions[:, 1]] = 0
@@ -199,6 +221,7 @@ def deletion_effect(model, X, deletions, left=False, args=None, func=predict,
 	"""
 
 	additional_func_kwargs = additional_func_kwargs or {}
+	_validate_variants(deletions, X, "deletions", characters=False)
 
 	mask = torch.zeros_like(X[:, 0]).type(torch.int32)
 	mask[deletions[:, 0], deletions[:, 1]] = 1
@@ -312,6 +335,7 @@ def insertion_effect(model, X, insertions, left=False, args=None, func=predict,
 	"""
 
 	additional_func_kwargs = additional_func_kwargs or {}
+	_validate_variants(insertions, X, "insertions")
 	X_var = []
 
 	for i in range(X.shape[0]):
